@@ -2,6 +2,7 @@
    slot sequence the visitors emit, for every parameter list the Counter accepts, provided no
    small (<= 16 byte) struct value carries objects (the Counter does not count those: K_interleave). *)
 Require Import Base Syntax Front Plan.
+Require Import gen.CounterFacts.
 Require Import spec.Spec_C02 proofs.PlanProofs proofs.C02Proofs proofs.C03Proofs.
 Require Import Permutation.
 Open Scope N_scope.
@@ -139,9 +140,9 @@ Definition obj_inc (p : mparam) : N :=
 Definition dirn (out : bool) (p : mparam) (v : N) : N := if Bool.eqb (mp_out p) out then v else 0.
 
 Lemma u8_add_ok a b v : u8_add Debug a b = Ok v -> v = a + b.
-Proof. unfold u8_add. destruct (a + b <? 256); intro H; inversion H. reflexivity. Qed.
+Proof. unfold u8_add. destruct counter_checked; [intro H; now inversion H|]. destruct (a + b <? 256); intro H; inversion H. reflexivity. Qed.
 Lemma u8_try_ok x v : u8_try x = Ok v -> v = x.
-Proof. unfold u8_try. destruct (x <? 256); intro H; inversion H. reflexivity. Qed.
+Proof. unfold u8_try. destruct counter_checked; [intro H; now inversion H|]. destruct (x <? 256); intro H; inversion H. reflexivity. Qed.
 
 Ltac u8 :=
   repeat match goal with
@@ -209,7 +210,27 @@ Proof.
   destruct (count_params Debug _ ps) as [s| | |] eqn:E; cbn [obind] in H; try discriminate.
   apply count_params_spec in E. cbn [cs nbi nbo noi noo hb_in hb_out orb] in E.
   destruct E as (E1 & E2 & E3 & E4 & E5 & E6).
-  u8. cbn [nbi nbo noi noo]. rewrite E1, E2, E3, E4, E5, E6. repeat split; lia.
+  u8.
+  match goal with H : (if ?c then _ else _) = Ok _ |- _ => destruct c; [inversion H; subst; clear H | discriminate] end.
+  cbn [nbi nbo noi noo]. rewrite E1, E2, E3, E4, E5, E6. repeat split; lia.
+Qed.
+
+(* with the repaired Counter an accepted parameter list has at most 15 slots of every class *)
+Theorem counter_within_limit ps c :
+  counter_checked = true -> counter Debug ps = Ok c ->
+  nbi c <= counter_limit /\ nbo c <= counter_limit /\ noi c <= counter_limit /\ noo c <= counter_limit.
+Proof.
+  intros Hk. unfold counter. intro H.
+  destruct (count_params Debug _ ps) as [s| | |]; cbn [obind] in H; try discriminate.
+  destruct (u8_add Debug (nbi (cs s)) _) as [bi| | |]; cbn [obind] in H; try discriminate.
+  destruct (u8_add Debug (nbo (cs s)) _) as [bo| | |]; cbn [obind] in H; try discriminate.
+  unfold within_limit in H. rewrite Hk in H. cbn [negb orb] in H.
+  destruct (bi <=? counter_limit) eqn:A; [|discriminate].
+  destruct (bo <=? counter_limit) eqn:B; [|discriminate].
+  destruct (noi (cs s) <=? counter_limit) eqn:C; [|discriminate].
+  destruct (noo (cs s) <=? counter_limit) eqn:D; [|discriminate].
+  cbn [andb] in H. inversion H; subst. cbn [nbi nbo noi noo].
+  apply N.leb_le in A, B, C, D. repeat split; assumption.
 Qed.
 
 (* ---- multiplicities of one parameter's slots ---- *)
